@@ -177,11 +177,18 @@ def r16b(ctx: Context) -> None:
     prog = ctx.prog
     rule = ctx.rule("R16b", "stdin / string input is scanned by the same per-file function as files", 2)
     per_file = prog.method(FSH, "__scan_specific_file")
-    callers = {s.caller.name: s for s in prog.callers.get(per_file.qualname, [])}
     for name in ("process_files_to_scan", "__scan_from_stdin"):
         key = f"FileScanHelper.{name}: uses __scan_specific_file"
-        if name in callers:
-            rule.ok(key, "shared per-file scan")
+        entry = prog.method(FSH, name)
+        # directly, or through private helpers of the scan helper (at most three calls deep)
+        reach = prog.reachable([entry], stop={per_file.qualname})
+        hops = 0
+        cursor = per_file.qualname
+        while cursor in reach and reach[cursor] is not None and hops < 6:
+            cursor = reach[cursor][0].qualname  # type: ignore[index]
+            hops += 1
+        if per_file.qualname in reach and hops <= 3:
+            rule.ok(key, "shared per-file scan" + ("" if hops <= 1 else f" (through {hops - 1} helper(s))"))
         else:
             rule.fail(key, where(prog.method(FSH, name)), f"{name} no longer scans through __scan_specific_file: file and stdin/string input take different code paths")
     stdin = prog.method(FSH, "__scan_from_stdin")
